@@ -41,6 +41,58 @@ theorem run_loop_none_get (cfg : Cfg) (f : Nat) (s : State) (o : Nat) (fn : Bool
   | zero => simp [run]
   | succ f => simp [run]
 
+/-- the state after `freeBegin` on a leaf chunk: it is pending, everything else as in `freeLeafS`
+before the removal -/
+theorem freeBegin_leaf_get (a : State) (r : Nat) (rb : Obj) (hr : a.get r = some rb)
+    (hk : rb.kind ≠ .plain) (ht : ∀ t, rb.kind = .ref t → t ≠ r) (hpr : rb.parent ≠ some r) (j : Nat) :
+    (freeBegin a r rb .none false).get j =
+      if j = r then some { rb with dtor := .none, pending := true }
+      else ((detach (match rb.kind with
+        | .ref t => a.modify t fun x => { x with refs := x.refs.erase r }
+        | _ => a) r)).get j := by
+  unfold freeBegin
+  simp only [Bool.false_eq_true, if_false]
+  cases hkind : rb.kind with
+  | plain => exact absurd hkind hk
+  | limit =>
+    simp only []
+    have h0 : (a.modify r fun x => { x with dtor := .none, pending := true }).get r =
+        some { rb with dtor := .none, pending := true } := by simp [hr]
+    cases hpar : rb.parent with
+    | none =>
+      rw [detach_eq_none h0 (by simpa using hpar), detach_eq_none hr hpar]
+      by_cases hj : j = r
+      · subst hj; simp [hr, hpar, hkind]
+      · simp [hj, Ne.symm hj]
+    | some p =>
+      have hpr' : p ≠ r := fun e => hpr (by rw [hpar, e])
+      rw [detach_eq_some h0 (by simpa using hpar), detach_eq_some hr hpar]
+      by_cases hj : j = r
+      · subst hj; simp [hr, hpr', hpar, hkind]
+      · simp [hj, Ne.symm hj]
+  | ref t =>
+    simp only []
+    have htr := ht t hkind
+    have h0 : ((a.modify r fun x => { x with dtor := .none, pending := true }).modify t
+        fun x => { x with refs := x.refs.erase r }).get r =
+        some { rb with dtor := .none, pending := true } := by simp [hr, htr]
+    have h1 : (a.modify t fun x => { x with refs := x.refs.erase r }).get r = some rb := by
+      simp [hr, htr]
+    cases hpar : rb.parent with
+    | none =>
+      rw [detach_eq_none h0 (by simpa using hpar), detach_eq_none h1 hpar]
+      by_cases hj : j = r
+      · subst hj; simp [hr, htr, hpar, hkind]
+      · simp [hj, Ne.symm hj]
+    | some p =>
+      have hpr' : p ≠ r := fun e => hpr (by rw [hpar, e])
+      rw [detach_eq_some h0 (by simpa using hpar), detach_eq_some h1 hpar]
+      by_cases hj : j = r
+      · subst hj; simp [hr, hpr', htr, hpar, hkind]
+      · by_cases hjt : t = j
+        · subst hjt; simp [hj, Ne.symm hj]
+        · simp [hj, Ne.symm hj, hjt]
+
 /-- the state after `freeBegin` on a leaf chunk, then an (immediately finished) child loop, then
 `freeEnd`, has the shape of `freeLeafS` -/
 theorem run_free_leaf (cfg : Cfg) (f : Nat) (a : State) (r : Nat) (rb : Obj) (hr : a.get r = some rb)
@@ -49,54 +101,7 @@ theorem run_free_leaf (cfg : Cfg) (f : Nat) (a : State) (r : Nat) (rb : Obj) (hr
     (run cfg (f + 1) a (.free r)).2 = 0 ∧ ShapeEq (freeLeafS a r) (run cfg (f + 1) a (.free r)).1 := by
   simp only [run, hr, hrf, hp, hd, dtorStep, ne_eq, not_true_eq_false, if_false, Bool.false_eq_true]
   -- the state after freeBegin: r is pending, otherwise as in freeLeafS before the removal
-  have hb : ∀ j : Nat, (freeBegin a r rb .none false).get j =
-      if j = r then some { rb with dtor := .none, pending := true }
-      else ((detach (match rb.kind with
-        | .ref t => a.modify t fun x => { x with refs := x.refs.erase r }
-        | _ => a) r)).get j := by
-    intro j
-    unfold freeBegin
-    simp only [Bool.false_eq_true, if_false]
-    cases hkind : rb.kind with
-    | plain => exact absurd hkind hk
-    | limit =>
-      simp only []
-      have h0 : (a.modify r fun x => { x with dtor := .none, pending := true }).get r =
-          some { rb with dtor := .none, pending := true } := by simp [hr]
-      cases hpar : rb.parent with
-      | none =>
-        rw [detach_eq_none h0 (by simpa using hpar), detach_eq_none hr hpar]
-        by_cases hj : j = r
-        · subst hj; simp [hr, hpar, hkind]
-        · simp [hj, Ne.symm hj]
-      | some p =>
-        have hpr' : p ≠ r := fun e => hpr (by rw [hpar, e])
-        rw [detach_eq_some h0 (by simpa using hpar), detach_eq_some hr hpar]
-        by_cases hj : j = r
-        · subst hj; simp [hr, hpr', hpar, hkind]
-        · simp [hj, Ne.symm hj]
-    | ref t =>
-      simp only []
-      have htr := ht t hkind
-      have h0 : ((a.modify r fun x => { x with dtor := .none, pending := true }).modify t
-          fun x => { x with refs := x.refs.erase r }).get r =
-          some { rb with dtor := .none, pending := true } := by simp [hr, htr]
-      have h1 : (a.modify t fun x => { x with refs := x.refs.erase r }).get r = some rb := by
-        simp [hr, htr]
-      cases hpar : rb.parent with
-      | none =>
-        rw [detach_eq_none h0 (by simpa using hpar), detach_eq_none h1 hpar]
-        by_cases hj : j = r
-        · subst hj; simp [hr, htr, hpar, hkind]
-        · simp [hj, Ne.symm hj]
-      | some p =>
-        have hpr' : p ≠ r := fun e => hpr (by rw [hpar, e])
-        rw [detach_eq_some h0 (by simpa using hpar), detach_eq_some h1 hpar]
-        by_cases hj : j = r
-        · subst hj; simp [hr, hpr', htr, hpar, hkind]
-        · by_cases hjt : t = j
-          · subst hjt; simp [hj, Ne.symm hj]
-          · simp [hj, Ne.symm hj, hjt]
+  have hb := freeBegin_leaf_get a r rb hr hk ht hpr
   have hbn : (freeBegin a r rb .none false).nullCtx = a.nullCtx := by
     unfold freeBegin; simp only [Bool.false_eq_true, if_false, nullCtx_detach]; split <;> simp
   have hch : childrenOf (freeBegin a r rb .none false) r = [] := by
